@@ -924,6 +924,13 @@ theorem Expr.need_le_text (e : Expr) (prec : Nat) (hl : ∀ t ∈ e.toks prec, L
     have ha := ih 0 (fun t ht => hl t (by simp [ht]))
     simp only [Expr.need, textLen_cons, textLen_append, textLen_nil, hNOT, hlp, hrp, List.cons_append, List.nil_append] at *
     omega
+  | group a ih =>
+    have hlp : (tokText lp).length = 1 := by decide
+    have hrp : (tokText rp).length = 1 := by decide
+    simp only [Expr.toks] at hl ⊢
+    have ha := ih 0 (fun t ht => hl t (by simp [ht]))
+    simp only [Expr.need, textLen_cons, textLen_append, textLen_nil, hlp, hrp, List.cons_append, List.nil_append] at *
+    omega
 
 /-- **text → tree**: any spelling of the canonical token sequence of an expression — arbitrary white space
     (spaces, tabs, newlines) between the tokens, before the first and behind the last — parses to the
@@ -973,6 +980,7 @@ def Expr.Lex : Expr → Prop
   | .and a b => a.Lex ∧ b.Lex
   | .or a b => a.Lex ∧ b.Lex
   | .not a => a.Lex
+  | .group a => a.Lex
 
 theorem word_of_list (w : Bytes) (h : (match w with | c :: _ => isLetter c | [] => false) = true) (h2 : w.all idc = true) : Word w := by
   cases w with
@@ -1158,6 +1166,13 @@ theorem Expr.toks_lexable (e : Expr) (h : e.Lex) (prec : Nat) : ∀ t ∈ e.toks
     simp only [Expr.toks, List.mem_append, List.mem_cons, List.not_mem_nil, or_false] at ht
     rcases ht with ((rfl | rfl) | ht) | rfl
     · exact kNOT
+    · exact hlp
+    · exact ih h 0 t ht
+    · exact hrp
+  | group a ih =>
+    intro t ht
+    simp only [Expr.toks, List.mem_append, List.mem_cons, List.not_mem_nil, or_false] at ht
+    rcases ht with rfl | ht | rfl
     · exact hlp
     · exact ih h 0 t ht
     · exact hrp
